@@ -698,38 +698,56 @@ def check_density(case, node, dom, pr, rep, extra):
                     rep.fail(f"random-uniform sampling with density {d} returned {got} points; ceil(d*measure) = ceil({x:.6f}) = {sorted(want)}",
                              dict(inp, how=how))
             elif how == "random":
-                # triangle: 2n proposals, those with bary-sum >= 1 are dropped; exact count from the tape
-                nn = sorted(want)
-                if len(tape.draws) != 1 or tape.draws[0].shape[1] not in [2 * a for a in nn]:
-                    rep.disagree("triangle density sampling: one torch.rand draw of 2*ceil(d*vol) proposals expected", dict(inp, how=how),
-                                 [tuple(t.shape) for t in tape.draws], [2 * a for a in nn])
-                    prop = None
-                else:
-                    prop = tape.draws[0].double()
-                    s = prop.sum(dim=2)
-                    lo = int((s < 1 - 1e-6).sum())
-                    hi = int((s < 1 + 1e-6).sum())
-                    if not (lo <= got <= hi):
-                        rep.fail(f"triangle density sampling returned {got} points, but {lo}..{hi} of the {prop.shape[1]} uniform proposals "
-                                 f"lie in the triangle", dict(inp, how=how))
+                # triangle: the statement allows two schemes and the check accepts EITHER, judged exactly under the one that applies:
+                #  (b) exact: ceil(d*area) points (e.g. n proposals, those with bary-sum >= 1 mirrored) — like every other primitive;
+                #  (a) rejection: 2n proposals, those with bary-sum >= 1 dropped — n points in expectation, at most 2n.
+                # How many random numbers are drawn is NOT an observable of the property; the tape is only used to sharpen (a).
                 n0 = max(want)
-                # expectation ceil(d*vol): binomial(2n, 1/2), 8 sigma
-                if abs(got - n0) > 8 * math.sqrt(n0 / 2 + 1) + 2:
-                    rep.fail(f"triangle density sampling returned {got} points, expected about ceil(d*measure) = {n0}", dict(inp, how=how))
-                # the same with a density that asks for about 4000 points (a wrong factor cannot hide in the noise)
+                # the scheme is read off a call that asks for about 4000 points (a small count can equal ceil(d*area) by chance)
                 dbig = float(Fr(round(4000 / m * 16), 16)) if m < 4000 else float(d)
                 nbig = math.ceil(dbig * m)
+                gb = None
                 try:
                     with warnings.catch_warnings():
                         warnings.simplefilter("ignore")
                         gb = len(common.call_with_timeout(5, dom.sample_random_uniform, d=dbig, params=pr))
-                    if abs(gb - nbig) > 8 * math.sqrt(nbig / 2 + 1) + 2:
-                        rep.fail(f"triangle density sampling with density {dbig} returned {gb} points, expected about d*measure = {nbig} "
-                                 f"(+-{8 * math.sqrt(nbig / 2 + 1):.0f})", dict(inp, how=how, density=str(Fr(dbig))))
                 except common.CallTimeout:
                     rep.count("density-timeout")
                 except Exception:  # noqa
                     rep.count("density-big-raised")
+                scheme = "exact" if (gb is not None and gb in int_candidates(dbig * m) and got in want) else "rejection"
+                rep.count("triangle-density-scheme:" + scheme)
+                if scheme == "rejection":
+                    if len(tape.draws) == 1 and tape.draws[0].dim() == 3 and tape.draws[0].shape[1] in [2 * a for a in want]:
+                        prop = tape.draws[0].double()
+                        sm = prop.sum(dim=2)
+                        lo = int((sm < 1 - 1e-6).sum())
+                        hi = int((sm < 1 + 1e-6).sum())
+                        if not (lo <= got <= hi):
+                            rep.fail(f"triangle density sampling returned {got} points, but {lo}..{hi} of the {prop.shape[1]} uniform proposals "
+                                     f"lie in the triangle", dict(inp, how=how))
+                    if got > 2 * n0 or abs(got - n0) > 8 * math.sqrt(n0 / 2 + 1) + 2:
+                        rep.fail(f"triangle density sampling returned {got} points: neither exactly ceil(d*measure) = {sorted(want)} nor within the "
+                                 f"range of 2*{n0} proposals accepted with probability 1/2", dict(inp, how=how))
+                if node.kind == "tri" and got and case.get("positions") is not False:
+                    # every returned point lies in the triangle (barycentric coordinates, float32 tolerance)
+                    o, c1, c2 = [[float(a) for a in pf.eval(env)] for pf in base.pfs]
+                    d1 = (c1[0] - o[0], c1[1] - o[1])
+                    d2 = (c2[0] - o[0], c2[1] - o[1])
+                    det = d1[0] * d2[1] - d1[1] * d2[0]
+                    P = pts.as_tensor.double()
+                    qx, qy = P[:, 0] - o[0], P[:, 1] - o[1]
+                    bx = (d2[1] * qx - d2[0] * qy) / det
+                    by = (d1[0] * qy - d1[1] * qx) / det
+                    bad = (bx < -1e-4) | (by < -1e-4) | (bx + by > 1 + 1e-4)
+                    if bool(bad.any()):
+                        k_ = int(torch.nonzero(bad)[0])
+                        rep.fail(f"triangle density sampling returned the point {P[k_].tolist()} outside the triangle "
+                                 f"(barycentric {float(bx[k_]):.4f}, {float(by[k_]):.4f})", dict(inp, how=how))
+                if gb is not None and scheme == "rejection" and gb not in int_candidates(dbig * m) and \
+                        (gb > 2 * nbig or abs(gb - nbig) > 8 * math.sqrt(nbig / 2 + 1) + 2):
+                    rep.fail(f"triangle density sampling with density {dbig} returned {gb} points, expected ceil(d*measure) = {nbig} exactly or "
+                             f"about that many (+-{8 * math.sqrt(nbig / 2 + 1):.0f})", dict(inp, how=how, density=str(Fr(dbig))))
             else:
                 check_grid(rep, inp, base, base_b, env, got, want, x, pts, extra, node, case.get("positions") is not False)
         return
